@@ -29,7 +29,7 @@ def simple_item(rng, d=0):
 
 
 def cond(rng):
-    l, r = rng.choice(NAMES), rng.choice(NAMES + LITS)
+    l, r = rng.choice(NAMES + ['(a)', '(t.c)']), rng.choice(NAMES + LITS + ['(b1)', '(1)', "DATE '2020-01-01'"])
     op = rng.choice(['=', '<', '>=', '<>', '!='])
     c = l + w(rng) + op + w(rng) + r
     if rng.random() < 0.4:
@@ -37,6 +37,9 @@ def cond(rng):
     return c, (l, op, r)
 
 
+WHERE_CONTEXTS = ['SELECT coalesce((%s), 0) FROM t2', 'SELECT f(a, (%s)) FROM t2', 'SELECT fn((%s)) AS c FROM t2', 'SELECT x FROM t2 WHERE y IN (%s)', 'SELECT x FROM t2 WHERE EXISTS (%s)',
+                  'SELECT CASE WHEN (%s) > 0 THEN 1 END FROM t2', 'WITH c AS (%s) SELECT 1 FROM c', 'INSERT INTO t3 %s', 'CREATE VIEW v AS %s', 'SELECT a, (%s) AS s, b FROM t2',
+                  'SELECT sum((%s)) OVER (PARTITION BY p) FROM t2', 'UPDATE t4 SET c = (%s)', 'SELECT x FROM t2 JOIN (%s) j ON j.x = t2.x', 'SELECT arr[(%s)] FROM t2']
 CLOSERS = ['UNION SELECT y FROM u WHERE q1 = 3', 'EXCEPT SELECT y FROM u WHERE q2 > 1 ORDER BY y', 'UNION ALL SELECT y FROM u WHERE q3 = 1 AND q4 = 2 UNION SELECT z FROM v WHERE q5 = 5', 'GROUP BY a', 'ORDER BY a DESC', 'LIMIT 5', 'UNION SELECT 1', 'UNION ALL SELECT 1', 'EXCEPT SELECT 2', 'HAVING x > 1', 'RETURNING id', 'INTO tmp', None]
 
 
@@ -65,6 +68,10 @@ def check_where(ctx, rng):
     inner = 'SELECT x FROM t' + w(rng) + kw('WHERE') + w(rng) + c + ((w(rng) + closer) if closer else '')
     nest = rng.random() < 0.4
     text = ('SELECT * FROM (' + inner + ') sub WHERE z = 1' if nest else inner)
+    if nest and rng.random() < 0.6:
+        # every place a subquery (or the query itself) can stand: argument of a call, IN/EXISTS operand, CASE condition, CTE body, INSERT … SELECT, CREATE … AS
+        text = rng.choice(WHERE_CONTEXTS) % inner
+        ctx.count('where:context')
     stmt = sqlparse.parse(text)[0]
     ctx.evaluations += 1
     ctx.count('where:' + (closer.split()[0] if closer else 'none') + (':nested' if nest else ''))
@@ -108,14 +115,25 @@ def check_list(ctx, rng):
 
 def check_call(ctx, rng):
     n = rng.randint(2, 4)
-    args = [rng.choice(NAMES + LITS + ['g(1, 2)', "DATE '2020-01-01'"]) for _ in range(n)]
-    text = 'SELECT fn(' + rng.choice([', ', ',', ' , ']).join(args) + ') FROM t'
+    args = [rng.choice(NAMES + LITS + ['g(1, 2)', "DATE '2020-01-01'", 'NULL', '?', '%s', ':p1', 'g (1, 2)']) for _ in range(n)]
+    gap = rng.choice(['', '', ' ', '\n', '  '])            # `fn (a, b)` is a call too
+    tail = rng.choice(['', '', ' OVER (PARTITION BY p1)', ' over w1', ' OVER (ORDER BY o1 DESC)', '  OVER  (PARTITION BY p1 ORDER BY o1)'])
+    text = 'SELECT fn' + gap + '(' + rng.choice([', ', ',', ' , ']).join(args) + ')' + tail + ' FROM t'
+    ctx.count('call:gap' if gap else 'call:tight')
+    if tail:
+        ctx.count('call:window')
     stmt = sqlparse.parse(text)[0]
     ctx.evaluations += 1
     ctx.count('call:%d' % n)
     ctx.nontrivial.add(text)
-    fs = [f for f in nodes_of(stmt, sql.Function) if str(f).startswith('fn(')]
-    got = [[str(p) for p in f.get_parameters()] for f in fs]
+    fs = [f for f in nodes_of(stmt, sql.Function) if str(f).startswith('fn')]
+    try:
+        got = [[str(p) for p in f.get_parameters()] for f in fs]
+    except Exception as e:
+        ctx.fail('Function.get_parameters() raised ' + type(e).__name__, text, observed=repr(e), required=args)
+        return text
+    if tail and not any(str(f) == 'fn' + gap + text[len('SELECT fn' + gap):-len(' FROM t')] for f in fs):
+        ctx.fail('a window call f(…) OVER … is not one Function node', text, observed=[str(f) for f in fs], required=text[len('SELECT '):-len(' FROM t')])
     if args not in got:
         ctx.fail('Function.get_parameters() does not yield the written arguments', text, observed=got, required=args)
     return text
@@ -124,7 +142,9 @@ def check_call(ctx, rng):
 def check_case(ctx, rng):
     k = rng.randint(1, 3)
     parts = [(rng.choice(['a = %d' % i, 'b > 0', 'x IS NULL']), rng.choice(LITS + NAMES)) for i in range(k)]
-    els = rng.choice(LITS) if rng.random() < 0.5 else None
+    els = rng.choice(LITS + ['NULL', 'null', 'b1', 'a + 1', "DATE '2020-01-01'"]) if rng.random() < 0.5 else None
+    if rng.random() < 0.3:
+        parts = [(c, rng.choice(['NULL', 'x1', 'f(1, 2)'])) for c, v in parts]
     text = 'SELECT CASE' + ''.join(w(rng) + 'WHEN ' + c + ' THEN ' + v for c, v in parts) + ((w(rng) + 'ELSE ' + els) if els else '') + w(rng) + 'END FROM t'
     stmt = sqlparse.parse(text)[0]
     ctx.evaluations += 1
@@ -145,7 +165,8 @@ def check_case(ctx, rng):
 
 
 def check_typed(ctx, rng):
-    lit = rng.choice(["DATE '2020-01-01'", "TIMESTAMP '2020-01-01 00:00'", "INTERVAL '2' DAY", "INTERVAL '1' HOUR", "date\t'2001-09-28'"])
+    lit = rng.choice(["DATE '2020-01-01'", "TIMESTAMP '2020-01-01 00:00'", "INTERVAL '2' DAY", "INTERVAL '1' HOUR", "date\t'2001-09-28'",
+                      "interval '1' day", "Interval '3' Month", "timestamp '2020-01-01 00:00'", "interval  '5'\nminute", "INTERVAL '1' second", "Date '2020-01-01'", "INTERVAL '7' YEAR"])
     text = 'SELECT ' + lit + ' FROM t WHERE d > ' + lit
     stmt = sqlparse.parse(text)[0]
     ctx.evaluations += 1
@@ -166,8 +187,7 @@ def where_sweep(ctx):
     import props.C18 as C18
     rng = ctx.rng
     words = C18.all_dictionary_words()
-    if ctx.quick():
-        words = [w for w in words if rng.random() < 0.3]
+    # (red-team: a single added closer was found with probability 0.3 per seed by the former 30 % sample; the full sweep costs about a second)
     words += ['GROUP BY', 'ORDER BY', 'UNION ALL', 'LIMIT', 'UNION', 'EXCEPT', 'HAVING', 'RETURNING', 'INTO', 'FROM', 'JOIN', 'SELECT', 'SET', 'VALUES', 'ON', 'USING']
     for w in dict.fromkeys(words):
         if w in ('WHERE', 'BEGIN', 'END', 'GO', 'CASE', 'IF', 'FOR', 'FOREACH', 'LOOP', 'WHILE'):
@@ -264,6 +284,36 @@ def domain_clause(ctx):
                      required={'kind': kind, 'target': target, 'items': items})
     ctx.dist['clause_skeletons'] = n
     ctx.dist['clause_skeletons_pinned'] = pinned
+
+
+def classify(f, kf):
+    """known findings by mechanism.  KF-C13-3 (a typed literal as a list item breaks the IdentifierList) puts the arguments of a call outside any
+    list; KF-C13-1 (outside a list get_parameters collects only Function/Identifier/TypedLiteral children and Literal tokens) then drops the
+    arguments that are bare keyword/placeholder tokens: `fn(:p1, DATE '2020-01-01')` -> ["DATE '2020-01-01'"]"""
+    if not any(k['id'] == 'KF-C13-1' for k in kf) or not str(f.get('what', '')).startswith('Function.get_parameters() does not yield'):
+        return None
+    try:
+        stmt = sqlparse.parse(f['input'])[0]
+        for fn in nodes_of(stmt, sql.Function):
+            if not str(fn).startswith('fn'):
+                continue
+            par = fn.token_next_by(i=sql.Parenthesis)[1]
+            kids = []
+            for t in par.tokens[1:-1]:
+                if isinstance(t, sql.IdentifierList):
+                    kids += list(t.get_identifiers())      # a partial list (the part after/before the typed literal)
+                elif not t.is_whitespace and not t.match(T.Punctuation, ','):
+                    kids.append(t)
+            broken_by_typed_literal = any(isinstance(t, sql.TypedLiteral) for t in kids)
+            got = list(fn.get_parameters())
+            returned = lambda t: any(t is g for g in got)
+            dropped = [t for t in kids if not returned(t)]
+            if broken_by_typed_literal and dropped and all((not t.is_group) and t.ttype not in T.Literal for t in dropped) \
+                    and len([t for t in kids if returned(t)]) == len(got) and all(a is b for a, b in zip([t for t in kids if returned(t)], got)):
+                return 'KF-C13-1'
+    except Exception:
+        return None
+    return None
 
 
 def replay_known(ctx, k):
